@@ -19,7 +19,7 @@ from qrv.build import r3
 
 LEVEL = "exploration"
 RULE = ("structure: every (number of baths 1-4, depth 0-6) shape (thorough: baths 1-5, depth 0-7, hsize <= 800), each with distinct per-bath "
-        "correlation times; dynamics: random dimers/trimers (coupled, uncoupled, degenerate) with random Hermitian unit-trace initial states at depths 0-4; "
+        "correlation times; dynamics: random dimers/trimers (coupled, uncoupled, degenerate; every third one with complex couplings J exp(i phi)) with random Hermitian unit-trace initial states at depths 0-4; "
         "closed-system limit with zero reorganisation energy; convergence ladders depth 1..6 (thorough 1..8) for uncoupled sites with "
         "sqrt(2 lambda kT)/gamma in [0.3,1.5]. distinct = (class, baths, depth, rounded parameters); non-trivial iff hsize > 1 (structure), "
         "the state changes by more than 1e-3 (dynamics), the coherence decays by more than 5 % (convergence).")
